@@ -116,6 +116,9 @@ func drawTreeCase(rt *rapid.T, maxAllowed int) TreeCase {
 	c := TreeCase{Pool: pool, Tree: tree}
 	c.Expr = tree.Render(c.terms(), sp)
 	c.AllowedTerms = tb.DrawAllowed(rt, pool, excPool, maxAllowed)
+	if maxAllowed > 1 && rapid.IntRange(0, 9).Draw(rt, "longList") == 0 {
+		c.AllowedTerms = tb.PadAllowed(rt, c.AllowedTerms)
+	}
 	c.Allowed = Texts(c.AllowedTerms)
 	return c
 }
@@ -140,6 +143,9 @@ func TestC01_Tree(t *testing.T) {
 		}
 		if len(c.Allowed) != len(setOf(c.Allowed)) {
 			rec.Class("list-has-duplicates")
+		}
+		if len(c.Allowed) >= 16 {
+			rec.Class("list-16-or-more-entries")
 		}
 		mixed := nTrue > 0 && nTrue < len(leaves)
 		nontrivial := c.Tree.Leaves() >= 3 && hasBothOps(c.Tree) && mixed
